@@ -502,3 +502,49 @@ def c16h(ctx):
     calls = [x for x in fi.walk() if is_call(x, 'self.check_request')]
     ok = bool(calls) and all(len(x.args) >= 2 or keyword(x, 'info_formats') is not None for x in calls)
     ctx.check(ok, 'WMTSServer.featureinfo:passes-formats', 'featureinfo hands the offered formats to check_request', fi)
+
+
+@rule('C16.i', floor=2)
+def c16i(ctx):
+    """a REST tile request with a value for a dimension the layer does not offer is refused before anything is fetched: the pre-check of
+    the RESTful WMTS looks at *every* dimension slot of the URL -- the loop over request.dimensions is left only by the refusal (or when
+    all slots were seen), and a slot is refused exactly when the layer does not have that dimension and the value is not 'default'.
+    (Values of dimensions the layer has are checked by TileLayer.checked_dimensions, C09.e.)"""
+    fn = ctx.fn('mapproxy/service/wmts.py:WMTSRestServer.check_request_dimensions')
+    loops = [s for s in fn.walk() if isinstance(s, ast.For) and contains(s.iter, lambda x: isinstance(x, ast.Attribute) and x.attr == 'dimensions')]
+    if len(loops) != 1:
+        raise Undecided('check_request_dimensions: loop over request.dimensions not found')
+    lp = loops[0]
+
+    def cls(node):
+        if node is None or isinstance(node, ast.Continue):
+            return 'next'
+        if isinstance(node, ast.Raise):
+            return 'refuse'
+        return 'leaves:' + type(node).__name__
+    tab = ctx.rows(table(lp.body, cls))
+    a_in = [a for a in tab.atoms if 'tile_layer.dimensions' in a or '.dimensions' in a and ' in ' in a]
+    a_def = [a for a in tab.atoms if "'default'" in a]
+    ok = len(a_in) == 1 and len(a_def) == 1
+    bad = []
+    if ok:
+        oi, od = tab.atom_objs[a_in[0]], tab.atom_objs[a_def[0]]
+        for asg, out, _ in tab.assignments():
+            known = asg[a_in[0]] if oi.op == 'in' else not asg[a_in[0]]
+            is_default = asg[a_def[0]] if od.op == '==' else not asg[a_def[0]]
+            want = 'refuse' if (not known and not is_default) else 'next'
+            if out != want:
+                bad.append((dict(asg), out))
+    ctx.check(ok and not bad, 'WMTSRestServer.check_request_dimensions:every-slot',
+              'each dimension slot: unknown to the layer and not "default" -> refused, otherwise on to the next slot (%d rows)' % len(tab.rows), fn,
+              fail='the pre-check does not look at every dimension slot or refuses the wrong ones: %s' % (bad[:2] if ok else sorted(tab.atoms)))
+    # the handlers (inherited from WMTSServer) run the pre-check before they ask the layer for the tile
+    for m in ('tile', 'featureinfo'):
+        h = ctx.fn('mapproxy/service/wmts.py:WMTSServer.' + m)
+        g = h.cfg
+        chk = g.find(lambda x: is_call(x, 'self.check_request_dimensions'))
+        # the upstream / cache work of the handler: tile_layer.render(..) for tiles, <info source>.get_info(..) for feature info
+        use = g.find(lambda x: isinstance(x, ast.Call) and isinstance(x.func, ast.Attribute) and x.func.attr in ('render', 'get_info'))
+        ok = bool(chk) and bool(use) and all(any(g.dominates(c, n) and c != n for c, _ in chk) for n, _ in use)
+        ctx.check(ok, 'WMTSServer.%s:dimension-pre-check-first' % m, 'check_request_dimensions dominates the rendering of the tile', h,
+                  fail='WMTSServer.%s renders the tile without the dimension pre-check' % m)
